@@ -6,6 +6,7 @@ from vf import common, chart as C, trace as T, refscxml, compare
 def make_case(seed, dm, **genkw):
     data = dm != 'null'
     genkw.setdefault('rich', True)
+    genkw.setdefault('evcond', dm == 'lua')      # conditions on _event.name are rendered for lua only
     ch, hist = C.gen_chart(seed, data=data, **genkw)
     return ch, hist
 
